@@ -21,7 +21,7 @@ import numpy as np
 from ..common import run_driver, q2s, seed_rng
 from ..exact import enc_list, enc_rule1, enc_scheme, rand_frac, rand_rule
 
-PROP_MODS = ['Stbem.Props.C14']
+PROP_MODS = ['Stbem.Props.C14', 'Stbem.Props.QuadTie']
 RULE = ('correspondence: the real Slobodeckij class (constructors of the three base rules monkey-patched in the '
         'harness process to rational stand-in rules with 1-4 nodes, routed by the requested order) run on exact '
         'rationals (class Q: exact sqrt of rational squares, float constants = the rationals they denote) and compared textually with the Lean '
@@ -43,6 +43,10 @@ TRUSTED = [
     '(Driver/QuadCmd.lean)',
     'Python semantics: Fraction arithmetic is exact; NumPy object arrays apply Python operators element-wise; '
     'order of np.repeat/tile/kron/hstack',
+    'the classes of src/quadrature.py that src/norms.py builds on (QuadScheme1D, ProductScheme2D, QuadScheme2D.integrate '
+    'with its size assertion) are regenerated from the source on every run (translate/quadgen.py -> Gen/QuadGen.lean) and '
+    'proved equal to the hand-written model used here (Props/QuadTie.lean: gen_product2_eq, gen_integrate2_eq, '
+    'gen_size_threshold, semi12pwVal_via_gen); the generated functions are run against the real classes by C15.py',
     'classical calculus, not formalised: Duffy substitution turning the improper double integrals into '
     '2 int_0^1 int_0^1 (.) x^-1/2 y^-1/2 resp. (.) x dy dx; the closed forms used by the search are computed '
     'from it by exact polynomial algebra in the harness',
@@ -54,6 +58,13 @@ ASSUMPTIONS = ['exact arithmetic (floats are rationals); h != 0, no node x = 0 a
                'the integrand f(x_hat, gamma) uses gamma only through gamma(x_hat)',
                'the base rules returned by the real constructors have the advertised moments (property C05) and '
                'np.polynomial.legendre.leggauss is a Gauss-Legendre rule']
+
+
+def translate(res):
+    """src/norms.py builds its rules with QuadScheme1D / ProductScheme2D / QuadScheme2D of src/quadrature.py: regenerate
+    Gen/QuadGen.lean from the working tree (Props/QuadTie.lean proves it equal to the hand model the Slobodeckij model uses)."""
+    from .C15 import translate_quadgen
+    translate_quadgen(res)
 
 
 # --------------------------------------------------------------------------------------------------
